@@ -61,6 +61,11 @@ pub trait Walker: Visitor {
         self.visit_statement(stmt);
         match stmt {
             Statement::Let(def) => {
+                // The constraint is an expression like any other, it is
+                // evaluated and can hold an import or include.
+                if let Some(constraint) = def.constraint.as_mut() {
+                    self.walk_expression(constraint);
+                }
                 self.walk_expression(&mut def.value);
             }
             Statement::Constraint(def) => {
